@@ -13,7 +13,7 @@ from vlib import Check, tlc, harness, OUT
 C06 = {"handler-invoked-twice", "handler-invoked-for-flush", "duplicate-dispatched", "handler-got-different-message",
        "handler-got-unknown-message", "reply-from-nowhere", "second-reply", "reply-for-wrong-request",
        "reply-before-handler-returned", "result-kind-changed", "unexpected-duptag-error", "malformed-reply",
-       "request-unanswered", "duplicate-unanswered", "flushed-reply-answers-new-request", "request-on-reused-tag-unanswered"}
+       "request-unanswered", "duplicate-unanswered", "flushed-reply-answers-new-request", "request-on-reused-tag-unanswered", "serving-ended-without-cause"}
 C07 = {"reply-after-flush-ack", "flushed-reply-answers-new-request", "request-on-reused-tag-unanswered", "rflush-before-cancel", "unexpected-flush-reply", "flush-unanswered",
        "reply-for-wrong-request", "second-reply"}
 C11 = {"stop-called-twice", "stop-not-called-once", "inflight-not-cancelled"}
@@ -74,6 +74,14 @@ def cex_scenario(cfg, name, repeat):
         rq = s["req"][i - 1] if 1 <= i <= len(s["req"]) else {"tag": 0, "kind": "none", "old": 0}
         labels.append((s["act"], rq))
     return behaviour_to_scenario(name, labels, repeat), r
+
+
+def slow_scenario():
+    """A handler that takes longer than any set-up deadline (the 1 s of version negotiation), then a request on the aged connection."""
+    return {"name": "slow-handler-then-late-request", "repeat": 2, "steps": [
+        {"a": "send", "i": 1, "tag": 1, "kind": "req", "old": 0}, {"a": "await_enter", "i": 1}, {"a": "pause", "k": 1300},
+        {"a": "release", "i": 1}, {"a": "await_reply", "k": 1},
+        {"a": "send", "i": 2, "tag": 1, "kind": "req", "old": 0}, {"a": "await_enter", "i": 2}, {"a": "release", "i": 2}, {"a": "await_reply", "k": 2}]}
 
 
 def kinds_scenario():
@@ -157,6 +165,7 @@ def _run(pid, tier, classes, families, extra=None):
         behs, _ = simulate("ServeSim_nofault.cfg", 120 if q else 1500, 45)
         scs += [behaviour_to_scenario("sim-nofault-%d" % i, b, 2 if q else 3) for i, b in enumerate(behs)]
         scs.append(kinds_scenario())
+        scs.append(slow_scenario())
     if "fault" in families:
         behs, _ = simulate("ServeSim_fault.cfg", 150 if q else 1500, 45)
         scs += [behaviour_to_scenario("sim-fault-%d" % i, b, 1 if q else 2) for i, b in enumerate(behs)
